@@ -171,7 +171,7 @@ Definition handle (x : sexp) : string :=
       | Some e', Some s' =>
           let tf (b : bool) := if b then "T" else "F" in
           match c02_eval valid_ident valid_type e' s' with
-          | VOk cov => "C02 ok " ++ tf cov
+          | VOk cov st => "C02 ok " ++ tf cov ++ " " ++ join_with "," st
           | VMismatch cov c p st => "C02 mismatch " ++ tf cov ++ " s" ++ hex c ++ " s" ++ hex p ++ " " ++ join_with "," st
           | VReject cov c st => "C02 reject " ++ tf cov ++ " s" ++ hex c ++ " s " ++ join_with "," st
           | VSkip why => "C02 skip " ++ why
